@@ -381,6 +381,8 @@ def check_out(ctx, c):
             raise Violation("data entry %d differs with output units: %r vs %r molecules" % (k, float(p), float(q)), key="out:data")
 
 
+RULE = RULE + " " + ('Since seeded round 4 facet one_cell_rhs (one-cell systems with reactions of order 0..3): make_dxdtf asked in two drawn unit systems on the two renderings, both against the reference law.')
+
 FACETS = [
     Facet("system", check_system, strategy=strat_system, examples=(480, 8000), shards=(16, 16)),
     Facet("one_cell_rhs", check_system, strategy=strat_onecell, examples=(320, 6000), shards=(8, 16)),
